@@ -94,6 +94,11 @@ def func_design(name, rng):
   for k in range(1, d2): L += ['@s.func', f'def rf{k}():', f'  rf{k-1}()']
   L += ['@update', 'def up_wr():', f'  wf{d1-1}( s.in_ )', '@update', 'def up_rd():', '  s.out @= s.w',
         '@update', 'def up_v():', '  s.v @= s.in_ + 3', '@update', 'def up_rf():', f'  rf{d2-1}()']
+  # one value-returning helper (possibly through another helper) shared by several update blocks
+  nshare = rng.randrange(2, 5); d3 = rng.randrange(1, 3)
+  L += ['s.t = Wire( 8 )', '@update', 'def up_t():', '  s.t @= s.in_ ^ 9', '@s.func', 'def sh0():', '  return s.t + 1']
+  for k in range(1, d3): L += ['@s.func', f'def sh{k}():', f'  return sh{k-1}() ^ 3']
+  for k in range(nshare): L += [f's.so{k} = OutPort( 8 )', '@update', f'def up_s{k}():', f'  s.so{k} @= sh{d3-1}() + {k}']
   body = '\n'.join('    ' + l for l in L)
   return sc.STRUCT_SRC + f'\nclass {name}( Component ):\n  def construct( s ):\n{body}\n'
 
@@ -298,6 +303,14 @@ def check_orders(ctx, name, src, cls, variants, coq_cases, coq_meta, needs=None,
   oterm = coq_list([coq_list([f'{x}%nat' for x in o]) for _, o in orders])
   coq_cases.append(f'({fp.design_term()}, {oterm})')
   coq_meta.append((name, src, [n for n, _ in orders], [o for _, o in orders], [b.__name__ for b in fp.comb]))
+  dag_add(ctx, name, src, fp)
+
+def dag_add(ctx, name, src, fp, expl=None):
+  """the constraint graph itself goes to the graph acceptor (Sched/DagAccept.v): every schedule it allows"""
+  if not hasattr(ctx, '_dag_cases'): ctx._dag_cases, ctx._dag_meta = [], []
+  term, missing = sc.dag_case(fp, expl=expl)
+  ctx._dag_cases.append(term)
+  ctx._dag_meta.append((name, src, [(fp.comb[a].__name__, fp.comb[b].__name__) for a, b in missing], [b.__name__ for b in fp.comb]))
 
 def expect_reject(ctx, name, src, cls, what):
   for sch in ['simple', 'dynamic', 'unroll', 'heuristic', 'mamba']:
@@ -416,6 +429,13 @@ Definition case_ok (c : design * list (list nat)) : bool :=
     parts = ctx.coq_eval('why', 'Base.Prelude Sched.Accept', defs, [f"let '(d, os) := {coq_cases[i]} in (wf_design d, map (sched_ok d) os)"])
     ctx.violation(f'C02:order:{name}', f'design {name}: an executed schedule violates reader-after-writer / explicit constraints; (wf, per-schedule ok) = {parts[0][:300]}; blocks {bnames[:12]}',
                   {'design_source': src, 'blocks': bnames, 'schedules': dict(zip(onames, orders)), 'acceptor_result': parts[0]})
+  badg = ctx.coq_bad_indices('dag', 'Base.Prelude Sched.Accept Sched.DagAccept', '', 'design * list (nat * nat) * list (list nat)',
+                             ctx._dag_cases, "let '(d, G, P) := c in dag_ok d G P", shard=12)
+  for i in badg[:8]:
+    name, src, missing, bn = ctx._dag_meta[i]
+    ctx.violation(f'C02:graph-acceptor:{name}', f'design {name}: the constraint graph the schedulers use is rejected by dag_ok: required (before, after) pairs not connected by any path: {missing[:4]} - some schedule the graph allows violates reader-after-writer / an explicit constraint',
+                  {'design_source': src, 'unordered_pairs': missing, 'blocks': bn})
+  ctx.extra['designs_with_graph_acceptor_case'] = len(ctx._dag_cases)
   ctx.sample({'design': coq_meta[3][0], 'source_tail': coq_meta[3][1][-500:], 'blocks': coq_meta[3][4], 'observed_orders': dict(zip(coq_meta[3][2], coq_meta[3][3]))})
   ctx.extra.update({'designs': len(coq_cases)})
 
@@ -598,6 +618,7 @@ def cl_method_designs(ctx, coq_cases, coq_meta):
                         {'design_source': src, 'before': [a, fp0.comb[a].__name__], 'after': [b_, fp0.comb[b_].__name__], 'edges': fp0.edges})
       oterm = coq_list([coq_list([f'{x}%nat' for x in o]) for _, o in orders])
       coq_cases.append(f'({fp0.design_term(expl=sorted(req))}, {oterm})')
+      dag_add(ctx, name, src, fp0, expl=sorted(req))
       coq_meta.append((name, src, [n_ for n_, _ in orders], [o for _, o in orders], [b_.__name__ for b_ in fp0.comb]))
       ctx.hist['family:cl-method-constraints'] = ctx.hist.get('family:cl-method-constraints', 0) + 1
       ctx.hist['cl-required-pairs'] = ctx.hist.get('cl-required-pairs', 0) + len(req)
@@ -643,7 +664,7 @@ def main(ctx):
   ctx.assumptions += ['read/write sets of user blocks are pymtl3\'s own AST analysis; the harness maps them to bit intervals independently of GenDAGPass',
                       'method (M) constraints: only the executed order vs. the derived constraint set is checked on stdlib CL queues (partial)',
                       'a cyclic design must be rejected with an error; any exception raised before a schedule is installed counts (this sandbox lacks graphviz/xdg-open, so SimpleSchedulePass raises from dump_dag before it can raise UpblkCyclicError)']
-  ctx.build_props(extra_models=['theories/Sched/Accept.vo'])
+  ctx.build_props(extra_models=['theories/Sched/Accept.vo', 'theories/Sched/DagAccept.vo'])
   try:
     run(ctx)
   except Exception as e:
